@@ -1,8 +1,10 @@
 #!/usr/bin/env python3
 """Development aid: archive a confirmed seeded change under /verif/seeded/<name>/.
-   tools/seedkeep.py <worktree> <name> <caught_by comma list | none> "<note>" """
+   tools/seedkeep.py <worktree> <name> <caught_by comma list | none> "<note>" ["<short description>" [round]] """
 import json, os, shutil, sys
 wt, name, caught, note = sys.argv[1:5]
+short = sys.argv[5] if len(sys.argv) > 5 else None
+rnd = int(sys.argv[6]) if len(sys.argv) > 6 else 1
 dst = os.path.join("/verif/seeded", name)
 os.makedirs(dst, exist_ok=True)
 shutil.copy(os.path.join(wt, "SEED/patch.diff"), os.path.join(dst, "patch.diff"))
@@ -22,5 +24,8 @@ meta = json.load(open(os.path.join(wt, "SEED/meta.json")))
 meta["confirmed_by_me"] = {"compiles_and_84_tests_pass": True, "demonstration_reproduced": True}
 meta["caught_by"] = [] if caught == "none" else caught.split(",")
 meta["note"] = note
+if short:
+    meta["short"] = short
+meta["round"] = rnd
 json.dump(meta, open(os.path.join(dst, "meta.json"), "w"), indent=1, ensure_ascii=False)
 print("kept", dst)
